@@ -656,7 +656,15 @@ protected:
             }
             else
             {
-                start = m_writer.write( chars, start, length);
+                // Comments and processing instructions cannot contain
+                // character references, so a character that cannot be
+                // represented in the output encoding is an error here.
+                const size_type     theCount =
+                    isUTF16HighSurrogate(ch) == true && start + 1 < length ? 2 : 1;
+
+                m_writer.writeCommentChars(chars + start, theCount);
+
+                start += theCount - 1;
             }
         }
 
